@@ -71,6 +71,13 @@ def build_cases(ctx):
                                 cases.append(dict(doc='\n'.join(lines), expect='gotwant', fail_stmt=2, trace=[10, 11, 12], corruption='stale-before-ignored-want', fail_line=None))
                             else:
                                 cases.append(dict(doc='\n'.join(lines), expect='pass', trace=[10, 11, 12], variants=['ignore_want:' + name]))
+    # the same doctests written with Windows line ends (text read with newline='', a docstring that spells \\r\\n): the same verdicts
+    for i, c in enumerate(list(cases)):
+        if i % 9 == 4 and '\r' not in c['doc']:
+            c2 = dict(c)
+            c2['doc'] = c['doc'].replace('\n', '\r\n')
+            c2['variants'] = list(c.get('variants', [])) + ['crlf']
+            cases.append(c2)
     # a traceback want also ends the window: what a statement wrote before it raised the expected exception belongs to that
     # statement, not to the next want (and neither does output that was still unmatched in front of it)
     for k0 in (None, 'print', 'printexpr'):
